@@ -449,8 +449,8 @@ func init() {
 	register(&fw.Check{
 		ID:    "C14",
 		Level: "model_checking",
-		Rule: "stateless exploration of thread interleavings of the REAL code under a controlled scheduler (scheduling point before every statement of the library, generated by AST instrumentation of the current tree), iterative preemption bounding: for every scenario (every unordered pair of ~80 calls on shared package functions / Parsers / predefined profiles / shared base URLs with 2 threads; selected 3-thread and 2-calls-per-thread scenarios) ALL schedules with <= b preemptions are executed with the Go race detector active (thread hand-off through an un-instrumented variable polled with Gosched creates no happens-before edge). " +
-			"Per execution: race detector silent, every call's result equals its solo result, deep snapshot of every package-level variable and the observables of shared base URLs unchanged, no panic. states = scheduling decisions taken, transitions = scheduling points executed, evaluations = schedules executed; non-trivial = distinct scenarios whose schedule space has more than one schedule",
+		Rule: "stateless exploration of thread interleavings of the REAL code under a controlled scheduler (scheduling point before every statement of the library, generated by AST instrumentation of the current tree), iterative preemption bounding: for every scenario (pairs of ~80 calls on shared package functions / Parsers / predefined profiles / shared base URLs with 2 threads - quick: pairs sharing an object group or involving a generic parse, thorough: every unordered pair; selected 3-thread and 2-calls-per-thread scenarios) ALL schedules with <= b preemptions are executed with the Go race detector active (thread hand-off through an un-instrumented variable polled with Gosched creates no happens-before edge). " +
+			"Per execution: race detector silent, every call's result equals its solo result, deep snapshot of every package-level variable and the observables of shared base URLs unchanged, no panic. states = distinct (scenario, schedule) pairs executed, transitions = scheduling points (statements) executed under the scheduler, evaluations = schedules executed (plus one cold-process execution per scenario, counted separately); non-trivial = distinct scenarios whose schedule space has more than one schedule",
 		Assume: []string{"scheduling granularity = statement boundaries; races inside a statement are still reported by the race detector (happens-before based), but result corruption needing a sub-statement switch is not explored",
 			"at most 3 threads and 2 calls per thread", "SearchParams() and setters are writes by design and are only used on thread-private URLs"},
 		Trusted: []string{"Go race detector", "verif/sched", "verif/instr"},
